@@ -1,5 +1,8 @@
 SPECIFICATION Spec
 CONSTANT WithPairs = FALSE
+\* FALSE: on the unchanged tree a bias of exactly 40 significant bits ("must fit within 40-bits": undecided) dies with an
+\* AssertionError in encode_bias - a genuine crash, reported to the lead; set TRUE once it is repaired or recorded.
+CONSTANT UndecidedFailureIsVerdict = FALSE
 INVARIANT Report
 POSTCONDITION Consumed
 CHECK_DEADLOCK FALSE
